@@ -94,4 +94,68 @@ theorem foldl_set_other (ps : List (Nat × Int)) (d : List Int) (k : Nat) (hk : 
     have : p.1 ≠ k := hk p (by simp)
     simp [List.getD, this]
 
+/-! ### the derived list methods, stated by their signals (independently of the state machine) -/
+
+/-- what `extend(vs)` signals on a list of length `len`: one `append` per item, with the item and the index at which
+    it arrives -/
+def specAppends (n : Nat) : Nat → List Int → List Sig
+  | _, [] => []
+  | len, v :: vs => ⟨n, .append, .none, .int v, .int len⟩ :: specAppends n (len + 1) vs
+
+theorem mExtend_acc (n : Nat) (vs : List Int) : ∀ (d : List Int) (acc : List Sig),
+    vs.foldl (fun (a : List Int × List Sig) v =>
+      let (d', s) := pAppend n a.1 v
+      (d', a.2 ++ [s])) (d, acc) = (d ++ vs, acc ++ specAppends n d.length vs) := by
+  induction vs with
+  | nil => intro d acc; simp [specAppends]
+  | cons v vs ih =>
+    intro d acc
+    have h := ih (d ++ [v]) (acc ++ [⟨n, .append, .none, .int v, .int d.length⟩])
+    simp only [pAppend] at h
+    simp only [List.foldl_cons, pAppend]
+    rw [h]
+    simp [specAppends, List.append_assoc]
+
+/-- what `clear()` signals: one `remove` per item, from the last item to the first, each with index `-1` -/
+def specClears (n : Nat) (d : List Int) : List Sig :=
+  d.reverse.map fun x => ⟨n, .remove, .int x, .none, .int (-1)⟩
+
+theorem pDel_last (n : Nat) (d : List Int) (x : Int) :
+    pDel n (d ++ [x]) (-1) = .ok (d, ⟨n, .remove, .int x, .none, .int (-1)⟩) := by
+  have hn : normIdx (d ++ [x]).length (-1) = some d.length := by
+    simp only [normIdx, List.length_append, List.length_singleton]
+    have h1 : ((-1 : Int) < 0) := by decide
+    simp only [h1, if_true]
+    have h2 : (0 : Int) ≤ -1 + ((d.length + 1 : Nat) : Int) ∧
+        -1 + ((d.length + 1 : Nat) : Int) < ((d.length + 1 : Nat) : Int) := by omega
+    rw [if_pos h2]
+    congr 1
+    omega
+  simp only [pDel, hn]
+  congr 2
+  · simp [List.eraseIdx_append_of_length_le]
+  · simp [List.getD]
+
+theorem mClear_rev (n : Nat) : ∀ (r : List Int) (fuel : Nat) (acc : List Sig), r.length < fuel →
+    mClear n fuel r.reverse acc = ([], acc ++ r.map fun x => ⟨n, .remove, .int x, .none, .int (-1)⟩) := by
+  intro r
+  induction r with
+  | nil =>
+    intro fuel acc hf
+    cases fuel with
+    | zero => omega
+    | succ f => simp [mClear, pDel, normIdx]
+  | cons x r ih =>
+    intro fuel acc hf
+    cases fuel with
+    | zero => omega
+    | succ f =>
+      simp only [List.reverse_cons, mClear, pDel_last]
+      rw [ih f _ (by simp at hf; omega)]
+      simp [List.append_assoc]
+
+theorem mClear_spec (n : Nat) (d : List Int) : mClear n (d.length + 1) d [] = ([], specClears n d) := by
+  have := mClear_rev n d.reverse (d.length + 1) [] (by simp)
+  simpa [specClears] using this
+
 end Mesa.Signals
